@@ -1039,6 +1039,18 @@ impl World {
     fn c13_append_wellformed(&mut self, i: usize, m: &Message, post: &Snap, ctx: &mut Ctx) {
         let id = i as u64 + 1;
         let cfg = self.cfg(i);
+        // an append generated or edited now speaks for the current leadership: it carries the
+        // leader's current term (batch_append edits queued messages in place)
+        if m.term != post.term && post.role == StateRole::Leader {
+            ctx.v(
+                "C13",
+                "append generated under an older term stamp",
+                format!(
+                    "leader {} (term {}) -> {}: MsgAppend stamped term {} was generated or extended now ({} entries, last entry term {:?})",
+                    id, post.term, m.to, m.term, m.entries.len(), m.entries.last().map(|e| e.term)
+                ),
+            );
+        }
         // anchor
         let anchor_term = if m.index == post.first - 1 {
             Some(post.base_term)
